@@ -195,28 +195,30 @@ def main():
             bexe = sched.build_bp_explorer(sd)
             scen = ["!1", "a1,!1,b1", "a2+q3,!2+q3,+q3", "+r20,!1,+s20,+t20"] if cr.quick else \
                    ["!1", "!2", "a1,!1,b1", "a2+q3,!2+q3,+q3", "+r20,!1,+s20,+t20", "a1,b1,!1", "!1,a1,b1,+q3", "a2,a2,!1+q3", "F:!1+q3,a1"]
+            # ... and without failure at the smallest queue backlogs (the front end itself holds up to two blocks outside the pool): every call must return
+            small_backlog = [(bl, sc) for bl in (1, 2) for sc in (["+q5,a1+q3", "a1+q3,+q5,b2+q3"] if cr.quick else ["+q5,a1+q3", "a1+q3,+q5,b2+q3", "+q5,+r5,a2+q3,b1", "F:a1+q3,+q5,a2+q3"])]
             for wk in ((2,) if cr.quick else (1, 2, 3)):
-                for sc in scen:
+                for bl, sc in [(3, sc_) for sc_ in scen] + small_backlog:
                     left = cr.time_left()
                     if left < 20:
                         cr.cap("deadline before block-processor failure scenario %s" % sc)
                         break
-                    j, r = sched.explore(bexe, [wk, 3, sc], bound=-1 if wk < 3 else 2, deadline=max(10, left - 15), unlock_points=True)
+                    j, r = sched.explore(bexe, [wk, bl, sc], bound=-1 if wk < 3 else 2, deadline=max(10, left - 15), unlock_points=True)
                     if j is None:
                         raise RuntimeError("bp explorer failed: %s" % r.err[-400:])
                     for k in tot:
                         tot[k] += j[k]
-                    bp_cfgs.append({"workers": wk, "scenario": sc, "executions": j["executions"], "states": j["states"],
+                    bp_cfgs.append({"workers": wk, "backlog": bl, "scenario": sc, "executions": j["executions"], "states": j["states"],
                                     "outcomes": [o["result"] for o in j["outcomes"]], "capped": j["capped"]})
                     if j["capped"]:
                         cr.cap("block-processor failure scenario %s capped" % sc)
                     if j["violation"] is not None:
                         v = j["violation"]
                         kind = {3: "deadlock", 4: "oracle", 5: "livelock"}.get(v["outcome"], "crash")
-                        cr.violation("C09|block-processor|%s|compressor failure" % kind,
-                                     "block processor on the controlled pool, %d workers, scenario %r (toy compressor fails on '!' blocks)\n%s\nschedule (thread ids): %s" % (
-                                         wk, sc, v["msg"], v["schedule_threads"]),
-                                     files={"case.json": json.dumps({"bp": True, "hargs": [wk, 3, sc], "violation": v}, indent=1),
+                        cr.violation("C09|block-processor|%s|%s" % (kind, "compressor failure" if "!" in sc else "backlog %d" % bl),
+                                     "block processor on the controlled pool, %d workers, backlog %d, scenario %r (toy compressor fails on '!' blocks)\n%s\nschedule (thread ids): %s" % (
+                                         wk, bl, sc, v["msg"], v["schedule_threads"]),
+                                     files={"case.json": json.dumps({"bp": True, "hargs": [wk, bl, sc], "violation": v}, indent=1),
                                             "schedule.txt": " ".join(str(x) for x in v["schedule_choices"]) + "\n"})
         cr.coverage["block_processor_failure_scenarios"] = bp_cfgs
 
